@@ -101,6 +101,59 @@ Theorem copy_then_equals : forall m, wf_stable m = true ->
 Proof. exact Local.copy_then_equals. Qed.
 Print Assumptions copy_then_equals.
 
+(* The same with the precise DATA hypothesis in place of the class hypothesis float_free m: the two Equals
+   conclusions hold whenever no present Float field of the SOURCE view holds a NaN pattern
+   ([nan_free_struct m fuel d (fr_sub src)], decidable, recursive over the typed result tree through
+   nested structures, visiting exactly the members Equals() visits).  The model comparison of Float values
+   is reflexive off NaN ([float_equals_reflexive_off_nan]); [copy_then_equals] is the corollary for
+   modules without Float fields. *)
+Theorem copy_then_equals_nan_free : forall m, wf_stable m = true ->
+  forall d ps pinit fuel mem o1 l1 o2 l2 n,
+    In d m ->
+    0 <= o1 -> o1 + l1 <= Z.of_nat (length mem) ->
+    0 <= o2 -> o2 + l2 <= Z.of_nat (length mem) ->
+    let src := eval_struct m mem fuel d ps pinit (SB (Some (o2, l2))) in
+    fr_sok src = true -> fr_ssize src = Some n -> 0 <= n -> n <= l1 ->
+    fr_sok (eval_struct m mem fuel d ps pinit (SB (Some (o2, n)))) = true ->
+    exists mem',
+      view_try_copy mem (Some (o1, l1)) src = Some mem' /\ length mem' = length mem /\
+      let dst' := eval_struct m mem' fuel d ps pinit (SB (Some (o1, l1))) in
+      fr_sok dst' = true /\ fr_ssize dst' = Some n /\
+      (nan_free_struct m fuel d (fr_sub src) = true -> equals_struct m fuel d (fr_sub dst') (fr_sub src) = true) /\
+      (forall g, observe g (eval_struct m mem' fuel d ps pinit (SB (Some (o1, n)))) =
+                 observe g (eval_struct m mem fuel d ps pinit (SB (Some (o2, n))))) /\
+      ((o1 = o2 \/ o1 + n <= o2 \/ o2 + l2 <= o1) ->
+       let src' := eval_struct m mem' fuel d ps pinit (SB (Some (o2, l2))) in
+       fr_sok src' = true /\
+       (nan_free_struct m fuel d (fr_sub src) = true -> equals_struct m fuel d (fr_sub dst') (fr_sub src') = true)).
+Proof. exact Local.copy_then_equals_nan_free. Qed.
+Print Assumptions copy_then_equals_nan_free.
+
+Theorem float_equals_reflexive_off_nan : forall kbits x,
+  float_is_nan kbits x = false -> float_eqb kbits x x = true.
+Proof. exact Local.float_eqb_refl. Qed.
+
+(* a module without Float fields satisfies the data hypothesis on every tree *)
+Theorem float_free_is_nan_free : forall m, float_free m = true ->
+  forall fuel d e, float_free_sdef d = true -> nan_free_struct m fuel d e = true.
+Proof. exact (fun m H fuel => proj2 (Local.float_free_nan_free m H fuel)). Qed.
+
+(* non-vacuity: the Float module of the NaN refutation below (float_free = false) with the source
+   holding 1.0f = 0x3f800000: the source is NaN-free and the copy is Equal *)
+Example copy_then_equals_float_instance :
+  float_free m_float = false /\
+  nan_free_struct m_float 4 d_float
+    (fr_sub (eval_struct m_float copy_mem_float 4 d_float [] true (SB (Some (0, 4))))) = true /\
+  exists mem',
+    view_try_copy copy_mem_float (Some (4, 4))
+      (eval_struct m_float copy_mem_float 4 d_float [] true (SB (Some (0, 4)))) = Some mem' /\
+    length mem' = length copy_mem_float /\
+    let dst' := eval_struct m_float mem' 4 d_float [] true (SB (Some (4, 4))) in
+    fr_sok dst' = true /\ fr_ssize dst' = Some 4 /\
+    equals_struct m_float 4 d_float (fr_sub dst')
+      (fr_sub (eval_struct m_float copy_mem_float 4 d_float [] true (SB (Some (0, 4))))) = true.
+Proof. exact Local.copy_then_equals_float_instance. Qed.
+
 (* an instance with a parameterised nested structure (Outer { n; Par(n) p; tail } of Stable.m_par) *)
 Example copy_then_equals_param_instance :
   wf_stable m_par = true /\
@@ -113,8 +166,9 @@ Example copy_then_equals_param_instance :
       (fr_sub (eval_struct m_par copy_mem_par 8 d_par [] true (SB (Some (0, 3))))) = true.
 Proof. exact (conj Stable.wf_stable_example_param Local.copy_then_equals_param_instance). Qed.
 
-(* The hypothesis float_free (no Float field) on the two Equals conclusions is forced: Float fields
-   compare with operator== of the values read, and a NaN does not equal itself.  A structure of the
+(* A hypothesis excluding NaN (float_free on the class, nan_free_struct on the data) on the two Equals
+   conclusions is forced: Float fields compare with operator== of the values read, and a NaN does not
+   equal itself.  A structure of the
    class wf_stable with one Float:32 field holding a quiet NaN is copied successfully (destination Ok,
    same size, same bytes) and the destination does not Equal the source. *)
 Theorem copy_then_equals_refuted_float_nan :
